@@ -401,12 +401,12 @@ theorem C11_lookup_name_anycase (t : Table) (hd : NamesDistinct t) (d : OptDecl)
 /-- an option is found by any of its synonyms written in any letter case, provided no option's
 name equals the key (the name has priority) and no option earlier in the set order matches it -/
 theorem C11_lookup_synonym_anycase (before after : Table) (d : OptDecl) (syn : Bytes) (mask : List Bool)
-    (hs : syn ∈ d.syns)
+    (hs : syn ∈ d.syns) (hw : d.isWildcard = false)
     (hn : ∀ e ∈ before ++ d :: after, ciEq e.name (recase mask syn) = false)
     (hb : ∀ e ∈ before, e.syns.any (fun s => ciEq (recase mask syn) s) = false ∧
                         wcMatch e.headTails (recase mask syn) = none) :
     lookup (before ++ d :: after) (recase mask syn) = some (d, none) :=
-  lookup_by_synonym hn hb hs (ciEq_recase mask syn)
+  lookup_by_synonym hn hb hs (ciEq_recase mask syn) hw
 
 /-- a key `head body tail` addresses the wildcard option `head*tail`; the recorded body is `body` -/
 theorem C11_lookup_wildcard (before after : Table) (d : OptDecl) (h body tl : Bytes)
@@ -447,21 +447,31 @@ theorem C11_wildcard_name_literal_unknown (t : Table) (hd : NamesDistinct t) (d 
     (hw : d.isWildcard = true) (key : Bytes) (hk : ciEq key d.name = true) : lookup t key = none := by
   simp [lookup, find_name hd hmem hk, hw]
 
-/- Full-strength statement (FALSE on the code as it exists; open known finding C11-wildcard-literal-synonym):
-   the same for the synonym patterns —
-     ∀ t d syn key, d ∈ t → d.isWildcard → syn ∈ d.syns → ciEq key syn → lookup t key = none.
-   `FindOption` compares the key with the inline synonyms before trying `wc_match` and has no wildcard test
-   there: the literal text of a synonym pattern (or a star-less synonym) resolves to the option with NO body, and
-   by `C11_plain_key_records_under_last_body` the value is then stored on the entry addressed before. -/
+/-- … and so is the literal text of any of its SYNONYM patterns (or a star-less synonym), in any letter case
+(ampl/mp 084cb26): the key is unknown, nothing is stored.
 
-/-- **Counterexample.**  Option `o:*` with synonym pattern `p*`: the key `p*` (the pattern itself) resolves to
-the option, without a body — it is not "unknown" as `o:*` is. -/
-theorem C11_counterexample_literal_synonym :
-    (lookup (buildTable [{ id := 0, name := [111, 58, 42], syns := [[112, 42]], kind := .int }]) [112, 42]).map (·.2) = some none ∧
-    lookup (buildTable [{ id := 0, name := [111, 58, 42], syns := [[112, 42]], kind := .int }]) [111, 58, 42] = none := by
-  constructor
-  · decide
-  · rfl
+History: before 084cb26 `FindOption` had no wildcard test in the synonym branch; this statement was false —
+`C11_counterexample_literal_synonym` (option `o:*` with synonym `p*`: the key `p*` resolved to the option with no
+body, and by `C11_plain_key_records_under_last_body` the value landed on the entry addressed before:
+`obj:2:priority=5 obj_*_priority=3` set entry 2 to 3).  Found by this check (regression case `cx5`), known finding
+C11-wildcard-literal-synonym, now fixed. -/
+theorem C11_wildcard_synonym_literal_unknown (before after : Table) (d : OptDecl) (syn key : Bytes)
+    (hw : d.isWildcard = true) (hs : syn ∈ d.syns) (hk : ciEq key syn = true)
+    (hn : ∀ e ∈ before ++ d :: after, ciEq e.name key = false)
+    (hb : ∀ e ∈ before, e.syns.any (fun s => ciEq key s) = false ∧ wcMatch e.headTails key = none) :
+    lookup (before ++ d :: after) key = none :=
+  lookup_synonym_of_wildcard hn hb hs hk hw
+
+/-- consequently a key that resolves WITHOUT a wildcard body never denotes a wildcard option: the stale-body
+route of `C11_plain_key_records_under_last_body` is open to list options only -/
+theorem C11_plain_key_never_wildcard (t : Table) (key : Bytes) (d : OptDecl)
+    (h : lookup t key = some (d, none)) : d.isWildcard = false :=
+  lookup_none_body h
+
+-- the former counterexample, on the current model: `p*` and `o:*` are both unknown keys
+example : lookup (buildTable [{ id := 0, name := [111, 58, 42], syns := [[112, 42]], kind := .int }]) [112, 42] = none ∧
+    lookup (buildTable [{ id := 0, name := [111, 58, 42], syns := [[112, 42]], kind := .int }]) [111, 58, 42] = none :=
+  ⟨by rfl, by rfl⟩
 
 /-! ## memory safety of the tokeniser: reads bounded by the terminating NUL
 
